@@ -137,7 +137,7 @@ impl NaRec {
             dev.calls[k] = (self.id as u8, query);
         }
         dev.n_calls += 1;
-        static EMPTY: UnitPlan = UnitPlan { pulls: Vec::new(), greedy: true, headers: Vec::new(), respond: Vec::new(), fail: None, swallow: false };
+        static EMPTY: UnitPlan = UnitPlan { pulls: Vec::new(), greedy: true, headers: Vec::new(), respond: Vec::new(), fail: None, swallow: false, mid_finish: None };
         let plan: &'static UnitPlan = dev.plan.get(k).unwrap_or(&EMPTY);
         for p in plan.pulls.iter() {
             match p.as_ {
@@ -178,7 +178,10 @@ impl NaRec {
             for h in plan.headers.iter() {
                 resp.header(h);
             }
-            for d in plan.respond.iter() {
+            for (di, d) in plan.respond.iter().enumerate() {
+                if plan.mid_finish == Some(di as u8) {
+                    let _ = resp.finish();
+                }
                 match d {
                     RespDatum::I32(v) => resp.data(*v),
                     RespDatum::U8(v) => resp.data(*v),
@@ -190,6 +193,7 @@ impl NaRec {
                     RespDatum::Expr(s) => resp.data(Expression(&s[..])),
                     RespDatum::BigBlock(n) => resp.data(Arbitrary(crate::rec::big_block(*n))),
                     RespDatum::ZeroBlock(n) => resp.data(Arbitrary(crate::rec::zero_block(*n))),
+                    RespDatum::ChrList(items) => resp.data(items.iter().take(8).map(|i| Character(&i[..])).collect::<arrayvec::ArrayVec<_, 8>>()),
                     RespDatum::ManyU8(n) => {
                         for i in 0..*n {
                             resp.data((i % 251) as u8);
